@@ -111,6 +111,7 @@ class Tr:
         if len(cls) != 1:
             raise Unsupported(f"class {CLASS} not found exactly once")
         self.fns = {n.name: n for n in cls[0].body if isinstance(n, ast.FunctionDef)}
+        self.module_fns = {n.name: n for n in tree.body if isinstance(n, (ast.FunctionDef, ast.AsyncFunctionDef))}
         st = [n for n in tree.body if isinstance(n, ast.ClassDef) and n.name == "CircuitBreakerStats"]
         self.stats_order = ([a.target.id for a in st[0].body if isinstance(a, ast.AnnAssign) and isinstance(a.target, ast.Name)]
                             if len(st) == 1 else None)
@@ -823,6 +824,22 @@ class Tr:
             reach.add(m)
             todo.extend(self.calls.get(m, ()))
         res["outside_writers"] = sorted(m for m in self.direct_writers if m not in reach and m != "__init__")
+        # module-level helper functions the class calls (e.g. the text renderer `_describe`): they stay outside the
+        # translation only while they cannot reach the breaker - they are not handed `self` (nor anything reached from
+        # it) and store to no attribute named like a breaker field, use no setattr / __dict__ / globals
+        for m, fn in self.fns.items():
+            for c in ast.walk(fn):
+                if isinstance(c, ast.Call) and isinstance(c.func, ast.Name) and c.func.id in self.module_fns:
+                    handed_self = any(isinstance(x, ast.Name) and x.id == "self"
+                                      for a in list(c.args) + [k.value for k in c.keywords] for x in ast.walk(a))
+                    g = self.module_fns[c.func.id]
+                    writes = any((isinstance(x, ast.Attribute) and isinstance(x.ctx, (ast.Store, ast.Del)))
+                                 or (isinstance(x, ast.Name) and x.id in ("setattr", "delattr", "globals", "vars", "eval", "exec"))
+                                 or (isinstance(x, ast.Attribute) and x.attr == "__dict__")
+                                 or isinstance(x, (ast.Global, ast.Nonlocal))
+                                 for x in ast.walk(g))
+                    if (handed_self or writes) and f"module:{c.func.id}" not in res["outside_writers"]:
+                        res["outside_writers"].append(f"module:{c.func.id}")
         return res
 
 
